@@ -51,6 +51,7 @@ func (e *Engine) VerifyFunction(fn *ssa.Function) (res *FuncResult) {
 	entry := &State{heap: map[string]Term{}, epoch: 0, wm: wm0, pc: True, ghost: map[string]Term{}}
 	fx.entry = entry
 	fr := fx.newFrame(fn, true)
+	fx.topFrame = fr
 	st := entry.clone()
 	for i, p := range fn.Params {
 		t := fx.ctx.Const("p!"+p.Name(), sortOf(p.Type()))
@@ -554,6 +555,50 @@ func (e *Engine) structural(fn *ssa.Function, dir string) *Obligation {
 		if o.Detail == "" {
 			o.Detail = "creation call not found"
 		}
+	case len(f) == 1 && f[0] == "terminates":
+		// the function is not part of a call cycle (calls + function values it creates), so it needs no measure;
+		// recursion without a `decreases` clause fails this obligation
+		reach := map[*ssa.Function]bool{}
+		var visit func(g *ssa.Function)
+		visit = func(g *ssa.Function) {
+			for _, b := range g.Blocks {
+				for _, in := range b.Instrs {
+					var targets []*ssa.Function
+					switch x := in.(type) {
+					case ssa.CallInstruction:
+						if sc := x.Common().StaticCallee(); sc != nil {
+							targets = append(targets, sc)
+						}
+						for _, a := range x.Common().Args {
+							if mc, ok := a.(*ssa.MakeClosure); ok {
+								targets = append(targets, mc.Fn.(*ssa.Function))
+							}
+							if fv, ok := a.(*ssa.Function); ok {
+								targets = append(targets, fv)
+							}
+						}
+					case *ssa.MakeClosure:
+						targets = append(targets, x.Fn.(*ssa.Function))
+					}
+					for _, t := range targets {
+						if !e.inModule(t) && t.Synthetic == "" {
+							continue
+						}
+						if !reach[t] {
+							reach[t] = true
+							visit(t)
+						}
+					}
+				}
+			}
+		}
+		visit(fn)
+		if reach[fn] {
+			o.Detail = "the function can reach itself through calls / function values and has no decreases clause: unbounded recursion is possible"
+			return o
+		}
+		o.Status = "proved"
+		o.Detail = "not on a call cycle"
 	case len(f) == 1 && f[0] == "no-channel-ops":
 		// the function synchronises only through the mutex / errgroup named in its contract: no channel send,
 		// receive, select or close — each of which could block a path that the error-propagation obligations assume returns
